@@ -210,6 +210,7 @@ def pressure_cases(draw):
           'max_queue': draw(st.integers(1, 12)), 'batch': draw(st.integers(1, 15)),
           'low_pct': draw(st.sampled_from([0.2, 0.5, 0.8])), 'hard_pct': draw(st.sampled_from([1.0, 1.25, 2])),
           'flow': True, 'dynamic': draw(st.sampled_from([True, True, False])), 'max_retries': draw(st.sampled_from([1, 1, 2])),
+          'pause_after': draw(st.sampled_from([None, None, 10, 25, 120])),
           'receivers': draw(st.integers(1, 2)), 'ops': ops, 'quiesce': draw(st.sampled_from(['as-is', 'as-is', 'all-up']))}
 
 
@@ -247,6 +248,7 @@ def failover_cases(draw):
           'max_queue': draw(st.integers(1, 8)), 'batch': draw(st.integers(1, 15)),
           'low_pct': draw(st.sampled_from([0.2, 0.5, 0.8])), 'hard_pct': draw(st.sampled_from([1.0, 1.25, 2])),
           'flow': True, 'dynamic': draw(st.sampled_from([True, True, True, False])), 'max_retries': draw(st.sampled_from([1, 1, 2])),
+          'pause_after': draw(st.sampled_from([None, None, 10, 25, 120])),
           'receivers': draw(st.integers(1, 2)), 'ops': ops, 'quiesce': draw(st.sampled_from(['as-is', 'as-is', 'all-up']))}
 
 
